@@ -97,6 +97,11 @@ type Manager struct {
 	stateMu   sync.RWMutex
 	stateFile string
 
+	// transitions counts completed Sleep and Wake transitions (guarded by stateMu).
+	// A poll remembers the value at its start; if it differs when the poll's callback
+	// returns, the poll has been overtaken and must not touch the state any more.
+	transitions uint64
+
 	// Timing
 	sleepStartTime time.Time
 	lastPollTime   time.Time
@@ -269,6 +274,7 @@ func (m *Manager) Sleep() error {
 
 	// Update state
 	m.state.Store(StateSleeping)
+	m.transitions++
 	m.sleepStartTime = time.Now()
 	m.lastPollTime = time.Time{}
 
@@ -319,6 +325,7 @@ func (m *Manager) Wake() error {
 
 	// Update state
 	m.state.Store(StateAwake)
+	m.transitions++
 	sleepDuration := time.Since(m.sleepStartTime)
 	m.sleepStartTime = time.Time{}
 	m.nextPollTime = time.Time{}
@@ -356,6 +363,7 @@ func (m *Manager) Poll() error {
 	// Transition to polling
 	m.state.Store(StatePolling)
 	m.lastPollTime = time.Now()
+	startedAt := m.transitions
 	m.stateMu.Unlock()
 
 	m.logger.Debug("starting poll")
@@ -377,8 +385,9 @@ func (m *Manager) Poll() error {
 	m.stateMu.Lock()
 	defer m.stateMu.Unlock()
 
-	// Check if we were woken during poll
-	if m.state.Load().(State) == StateAwake {
+	// Check if we were woken during poll. A wake followed by a new sleep (and perhaps a
+	// new poll) also means this poll is over: the state now belongs to the later requests.
+	if m.state.Load().(State) == StateAwake || m.transitions != startedAt {
 		return nil
 	}
 
